@@ -67,13 +67,13 @@ noncomputable def mrank (G : Nat → List Nat) (sm : SM) (u v : Nat) (x : Nat) :
   else getN sm.sgIdx x
 
 /-- `mrank` increases along every old quotient edge, seen through `rep1` -/
-theorem mrank_lt (c : MergeCtx G E sm gs uf0 u v) {a b : Nat} (he : QE G sm a b)
-    (hne : rep1 sm u v a ≠ rep1 sm u v b) :
+theorem mrank_lt_of (hinv : Inv G E sm gs) (c_huv : u ≠ v)
+    (c_hlt : getN sm.sgIdx u < getN sm.sgIdx v) (c_nocyc : ¬ MergeCycle G sm u v)
+    {a b : Nat} (he : QE G sm a b) (hne : rep1 sm u v a ≠ rep1 sm u v b) :
     mrank G sm u v (rep1 sm u v a) < mrank G sm u v (rep1 sm u v b) := by
-  have hinv := c.inv
   obtain ⟨ha, hb, hra, hrb⟩ := he.reps hinv
   have hlt := hinv.qe_idx_lt he
-  have hltuv := c.hlt
+  have hltuv := c_hlt
   have r1a : rep1 sm u v a = if a = v then u else a := by unfold rep1; rw [hra]
   have r1b : rep1 sm u v b = if b = v then u else b := by unfold rep1; rw [hrb]
   rw [r1a, r1b] at hne ⊢
@@ -83,11 +83,11 @@ theorem mrank_lt (c : MergeCtx G E sm gs uf0 u v) {a b : Nat} (he : QE G sm a b)
   · -- the edge enters the merged group
     have hb' : (if b = v then u else b) = u := by
       rcases hbuv with h | h
-      · subst h; simp [c.huv]
+      · subst h; simp [c_huv]
       · simp [h]
     rw [hb'] at hne ⊢
     have hau : a ≠ u := by
-      intro h; apply hne; simp [h, c.huv]
+      intro h; apply hne; simp [h, c_huv]
     have hav : a ≠ v := by
       intro h; apply hne; simp [h]
     simp only [hav, if_false]
@@ -99,7 +99,7 @@ theorem mrank_lt (c : MergeCtx G E sm gs uf0 u v) {a b : Nat} (he : QE G sm a b)
         · subst h
           obtain ⟨m, h1, h2⟩ := hq
           have hm_le := hinv.qstar_idx_le h2
-          exact c.nocyc ⟨m, by intro hm; subst hm; omega, h1, h2.snoc he⟩
+          exact c_nocyc ⟨m, by intro hm; subst hm; omega, h1, h2.snoc he⟩
       · have := hq.idx_lt hinv
         rcases hbuv with h | h <;> subst h <;> omega
     unfold mrank
@@ -112,7 +112,7 @@ theorem mrank_lt (c : MergeCtx G E sm gs uf0 u v) {a b : Nat} (he : QE G sm a b)
     · -- the edge leaves the merged group
       have ha' : (if a = v then u else a) = u := by
         rcases hauv with h | h
-        · subst h; simp [c.huv]
+        · subst h; simp [c_huv]
         · simp [h]
       rw [ha']
       have hd : QPlus G sm u b ∨ QPlus G sm v b := by
@@ -137,6 +137,13 @@ theorem mrank_lt (c : MergeCtx G E sm gs uf0 u v) {a b : Nat} (he : QE G sm a b)
         by_cases hdb : QPlus G sm u b ∨ QPlus G sm v b
         · simp only [hdb, if_true]; omega
         · simp only [hdb, if_false]; exact hlt
+
+
+/-- `mrank` increases along every old quotient edge, seen through `rep1` -/
+theorem mrank_lt (c : MergeCtx G E sm gs uf0 u v) {a b : Nat} (he : QE G sm a b)
+    (hne : rep1 sm u v a ≠ rep1 sm u v b) :
+    mrank G sm u v (rep1 sm u v a) < mrank G sm u v (rep1 sm u v b) :=
+  mrank_lt_of c.inv c.huv c.hlt c.nocyc he hne
 
 end
 end HvGraphAlg
